@@ -17,7 +17,8 @@ from asphalt.core import (  # noqa: E402
 )
 
 STEPS = ["enter Context()", "enter Context() with a raising teardown callback", "enter Context(explicit parent = the shared root)",
-         "leave cleanly", "leave with an exception", "checkpoint", "spawn a child task", "try to enter the innermost context again (must be refused)"]
+         "leave cleanly", "leave with an exception", "checkpoint", "spawn a child task", "try to enter the innermost context again (must be refused)",
+         "leave the SECOND-innermost context while the innermost, entered later, stays open (overlapping lifetimes, e.g. through an AsyncExitStack)"]
 
 
 def cur():
@@ -94,6 +95,19 @@ class Prog:
                             pass
                         if not self.observe("after-refused-re-entry"):
                             return
+                elif st == 8:
+                    if len(self.entered) >= 2:
+                        ctx, before, how = self.entered.pop(-2)
+                        try:
+                            await ctx.__aexit__(None, None, None)
+                        except BaseException:  # noqa: complaining about a still open CHILD is C13's business
+                            pass
+                        # "on leaving the block ... it is again whatever it was before entry": literally that, also when a later context is still open
+                        self.shadow = before
+                        if not ctx.closed:
+                            self.problems.append(("not-closed-after-leave", self.name))
+                        if not self.observe(f"after-leaving-an-outer-context-first:{how}"):
+                            return
                 elif st == 5:
                     await anyio.sleep(0)
                     if not self.observe("after-checkpoint"):
@@ -119,7 +133,7 @@ def cfg(tier):
 
 def params(tier):
     K, D, L = cfg(tier)
-    ps = [P(f"a{i}", 0, 7) for i in range(K)] + [P("cancel", 0, 4)]
+    ps = [P(f"a{i}", 0, 8) for i in range(K)] + [P("cancel", 0, 4)]
     for j in range(D):
         ps += [P(f"gap{j}", 0, L), P(f"arm{j}", 0, 7)]
     return ps
@@ -128,7 +142,7 @@ def params(tier):
 @guard
 def fn(a, tier):
     K, D, L = cfg(tier)
-    steps = [pick(a[f"a{i}"], 8) for i in range(K)]
+    steps = [pick(a[f"a{i}"], 9) for i in range(K)]
     cancel_at = pick(a["cancel"], 5)  # 0: never; n: the canceller cancels task A after n-1 checkpoints
     tape = DeviationTape([(a[f"gap{j}"], a[f"arm{j}"]) for j in range(D)], L)
     problems = []
@@ -182,7 +196,7 @@ H = Harness(
     "checkpoints; FIFO schedule with " + ("one deviation within 8 decisions" if tier == "quick" else "one deviation within 10 decisions"),
     oracle="after every step every task's current_context() is the top of its own shadow stack (None -> NoCurrentContext); a new context's parent "
     "is the shadow top at creation (or the explicit one); a spawned task starts with its spawner's top; leaving by return / exception / raising "
-    "teardown / cancellation restores exactly the previous top and closes the context",
+    "teardown / cancellation restores exactly what was current before that context's entry - also when a context entered later is still open - and closes the context",
     outside="contexts entered and left in different tasks (unsupported); deeper programs",
     stubs=STUBS_COMMON,
 )
